@@ -123,14 +123,19 @@ def rule_store(ctx):
                 return False
             seen = b.reach([0], avoid=ctx.both(ctx.infeasible(b), avoid))
             kinds = set()
-            for d in b.defs.get(0, []):
-                if d[1] in seen:
-                    if d[0] == 'stmt' and d[3]['k'] == 'aggr':
-                        kinds.add(d[3]['ak'].get('variant'))
-                    elif d[0] == 'call' and d[2].qname == 'std::ops::FromResidual::from_residual':
-                        kinds.add('Err')
-                    else:
-                        kinds.add('?')
+
+            def kinds_of(local, depth=0):
+                for d in b.defs.get(local, []):
+                    if d[1] in seen:
+                        if d[0] == 'stmt' and d[3]['k'] == 'aggr':
+                            kinds.add(d[3]['ak'].get('variant'))
+                        elif d[0] == 'call' and d[2].qname == 'std::ops::FromResidual::from_residual':
+                            kinds.add('Err')
+                        elif d[0] == 'stmt' and d[3]['k'] == 'use' and depth < 4 and F.operand(d[3]['op'])[0] in ('c', 'm') and not F.operand(d[3]['op'])[1][1]:
+                            kinds_of(F.operand(d[3]['op'])[1][0], depth + 1)  # a moved result (e.g. the value a helper returned)
+                        else:
+                            kinds.add('?')
+            kinds_of(0)
             good = kinds == {'Err'}
             R.ob('STORE-add-cycle', b.path, good, 'a cycle reported by the graph is returned as an error' if good
                  else 'when the graph reports CycleDetected, add_dependency can return %s' % sorted(kinds), ctx.where(b, e.bb), props=('C07',))
@@ -907,9 +912,10 @@ def rule_bottomup(ctx):
     some_b = [d[1] for d in rnb.defs.get(0, []) if d[0] == 'stmt' and d[3]['k'] == 'aggr' and d[3]['ak'].get('variant') == 'Some']
     eq_true = set()
     for (bb, k), g in rnb.guards.items():
-        if g.kind == 'bool' and g.truth() is True:
+        if g.kind == 'bool' and g.truth() is not None:
             for sc in g.subject_calls():
-                if sc.qname == 'std::cmp::PartialEq::eq':
+                # the edge asserting "the executed task is the required one": eq = true, or ne = false
+                if (sc.qname == 'std::cmp::PartialEq::eq' and g.truth() is True) or (sc.qname == 'std::cmp::PartialEq::ne' and g.truth() is False):
                     a = [rnb.orig_operand(x) for x in sc.args]
                     if any(all(o.kind == 'arg' for o in s) for s in a) and any(any(c.bb in ctx.base_call_bbs(s) for c in pl) for s in a):
                         eq_true.add(('e', bb, k))
@@ -1092,7 +1098,11 @@ def rule_queue(ctx):
         sorts = {c.bb for c in b.calls.values() if is_callee(ctx, c, srt)} | {c.bb for c in b.find_calls(lambda c: c.qname in SORT_FNS)}
         rem = b.find_calls(lambda c: c.qname in ('std::vec::Vec::pop', 'std::vec::Vec::remove', 'std::vec::Vec::swap_remove') and ctx.has_field(b.orig_operand(c.args[0]), vec_f))
         scans = [c for c in b.find_calls(lambda c: c.qname == 'std::iter::Iterator::next') if any(x.qname in ('core::slice::iter', 'std::vec::Vec::iter') for x in ancestors(b, b.orig_operand(c.args[0])).values())]
+        # selection by a searching adaptor over the vector's slice iterator: rposition / rfind scan from the back, position / find from the front
+        adapt = [c for c in b.find_calls(lambda c: c.qname in ('std::iter::Iterator::rposition', 'std::iter::Iterator::position', 'std::iter::DoubleEndedIterator::rfind', 'std::iter::Iterator::find')
+                                         and any(x.qname in ('core::slice::iter', 'std::vec::Vec::iter') for x in ancestors(b, b.orig_operand(c.args[0])).values()))] if not scans else []
         sel = rem if not scans else scans
+        sel = sel + adapt
         for c in sel + rem:
             w = b.must_before(c.bb, ctx.both(inf, lambda n: n in sorts))
             R.ob('Q1-sorted-first', key + '#' + c.name, w is None, 'the queue is sorted before an element is selected / removed' if w is None else 'an element is selected from an unsorted queue', ctx.where(b, c.bb), props=P)
@@ -1102,6 +1112,11 @@ def rule_queue(ctx):
             anc = ancestors(b, b.orig_operand(scans[0].args[0]))
             rev = sum(1 for x in anc.values() if x.qname == 'std::iter::Iterator::rev') % 2 == 1
             side = 'back' if rev else 'front'
+        elif adapt:
+            anc = ancestors(b, b.orig_operand(adapt[0].args[0]))
+            rev = sum(1 for x in anc.values() if x.qname == 'std::iter::Iterator::rev') % 2 == 1
+            from_back = adapt[0].qname.split('::')[-1] in ('rposition', 'rfind')
+            side = 'back' if from_back != rev else 'front'
         elif rem:
             r0 = rem[0]
             if r0.qname == 'std::vec::Vec::pop':
@@ -1147,6 +1162,15 @@ def rule_queue(ctx):
             nxs = [b.calls[o.key] for o in _through_tuple_aggr(b, F, io) if o.kind == 'call' and b.calls[o.key].name == 'next']
             good = False
             why = 'the removal index does not come from an enumeration of the vector'
+            pos = [b.calls[o.key] for o in io if o.kind == 'call' and b.calls[o.key].qname in ('std::iter::Iterator::rposition', 'std::iter::Iterator::position')]
+            if pos and len(pos) == len(io):
+                # `iter().position(..)` / `.rposition(..)`: both count from the front of the underlying iterator; it is the vector position
+                # iff the iterator is the vector's own slice iterator with nothing in between
+                prev = [b.calls[o.key].qname for o in _raw_arg0_calls(b, pos[0])]
+                itc = [x for x in ancestors(b, b.orig_operand(pos[0].args[0])).values() if x.qname in ('core::slice::iter', 'std::vec::Vec::iter')]
+                good = bool(prev) and prev[0] in ('core::slice::iter', 'std::vec::Vec::iter') and len(itc) == 1 and any(
+                    ctx.has_field(b.orig_operand(y.args[0]), vec_f) for y in [itc[0]] + list(ancestors(b, b.orig_operand(itc[0].args[0])).values()) if y.args)
+                why = 'the index comes from a position search over %s, not over the vector itself' % prev
             if nxs:
                 # walk the adaptor chain from the scan back to the vector
                 chain = []
@@ -1174,11 +1198,34 @@ def rule_queue(ctx):
     # Q4: candidate test orientation in pop_least
     b = bu['q_pop_least']
     ts = [c for c in b.calls.values() if is_callee(ctx, c, roles.trans_req)]
+    cts = [(cb, c) for cb in F.closures_of(b) for c in cb.calls.values() if is_callee(ctx, c, roles.trans_req)] if not ts else []
     good = len(ts) == 1
     if good:
         a1 = b.orig_operand(ts[0].args[1])
         a2 = b.orig_operand(ts[0].args[2])
         good = all(o.kind == 'arg' and o.key == 2 for o in a1) and bool(a1) and all(o.kind == 'call' for o in a2) and bool(a2)
+    elif len(cts) == 1:
+        # the candidate test as the predicate of a searching adaptor: |queued| src == queued || requires(src, queued)
+        cb, t = cts[0]
+        a1 = cb.orig_operand(t.args[1])
+        a2 = cb.orig_operand(t.args[2])
+        caps = []
+        for l, ds in b.defs.items():
+            for d in ds:
+                if d[0] == 'stmt' and d[3]['k'] == 'aggr' and d[3]['ak'].get('closure') == cb.id:
+                    caps = [b.orig_operand(F.operand(x)) for x in d[3]['ops']]
+        src_captured = any(x and all(o.kind == 'arg' and o.key == 2 for o in x) for x in caps)
+        good = bool(a1) and all(o.kind == 'arg' and o.key == 1 for o in a1) and bool(a2) and all(o.kind == 'arg' and o.key == 2 for o in a2) and src_captured
+        # polarity: on the false edge of the test the predicate cannot answer true
+        tf = {n for n, g_ in guard_edges_on_call(cb, t) if g_.truth() is False}
+        true_defs = [d[1] for d in cb.defs.get(0, []) if d[0] == 'stmt' and d[3]['k'] == 'use' and 'k' in d[3]['op'] and d[3]['op']['k'].get('int') == '1']
+        direct = ctx.base_call_bbs(cb.orig_local(0)) >= {t.bb}
+        seen_ = set()
+        for e in tf:
+            seen_ |= set(cb.reach([e], avoid=ctx.infeasible(cb)))
+        pol = (bool(tf) and not any(x in seen_ for x in true_defs)) or (direct and not tf)
+        R.ob('Q4-polarity', b.path, pol, 'a queued task that the required task does not depend on is skipped' if pol
+             else 'a queued task is selected although the required task does not depend on it', ctx.where(b), props=('C04',))
     R.ob('Q4-orientation', b.path, good, 'a queued task is a candidate iff the required task (transitively) depends on it' if good
          else 'the candidate test is not `required task transitively requires queued task`', ctx.where(b), props=('C04', 'C03'))
     if len(ts) == 1:
